@@ -81,18 +81,18 @@ package characteristic
 //@ func (c *Characteristic) onValueUpdate(funcs, newValue, oldValue)
 //@   requires c != nil && forall(i, 0, len(funcs), funcs[i] != nil)
 //@   modifies heap, callcount
-//@   ensures sameobj(c) && sameheap("func") && callcount() >= old(callcount())
+//@   ensures sameobj(c) && sametype(c) && sameheap("func") && callcount() >= old(callcount())
 //@   loop 0
 //@     invariant idx: 0 <= loopidx && loopidx <= len(funcs)
-//@     invariant same: sameobj(c) && sameheap("func") && callcount() >= old(callcount())
+//@     invariant same: sameobj(c) && sametype(c) && sameheap("func") && callcount() >= old(callcount())
 //@     invariant nonnil: forall(i, 0, len(funcs), funcs[i] != nil)
 //@ func (c *Characteristic) onValueUpdateFromConn(funcs, conn, newValue, oldValue)
 //@   requires c != nil && forall(i, 0, len(funcs), funcs[i] != nil)
 //@   modifies heap, callcount
-//@   ensures sameobj(c) && sameheap("func") && callcount() >= old(callcount())
+//@   ensures sameobj(c) && sametype(c) && sameheap("func") && callcount() >= old(callcount())
 //@   loop 0
 //@     invariant idx: 0 <= loopidx && loopidx <= len(funcs)
-//@     invariant same: sameobj(c) && sameheap("func") && callcount() >= old(callcount())
+//@     invariant same: sameobj(c) && sametype(c) && sameheap("func") && callcount() >= old(callcount())
 //@     invariant nonnil: forall(i, 0, len(funcs), funcs[i] != nil)
 
 // bounds declared by the constructors are finite floats (C15 pins them); needed so that clamping yields a finite value
@@ -105,20 +105,22 @@ package characteristic
 //@   ensures sameMeta: c.Format == old(c.Format) && c.Perms == old(c.Perms) && c.MinValue == old(c.MinValue) && c.MaxValue == old(c.MaxValue) && c.ID == old(c.ID)
 //@   ensures noWrite: checkPerms && !old(hasPerm(c.Perms, "pw")) ==> c.Value == old(c.Value) && callcount() == old(callcount())
 //@   ensures noRead: !old(hasPerm(c.Perms, "pr")) ==> c.Value == old(c.Value)
+//@   ensures others: sametype(c) && sameheap("func")
+//@   ensures quiet: old(hasPerm(c.Perms, "pr")) && c.Value == old(c.Value) && !c.updateOnSameValue ==> callcount() == old(callcount())
 
 //@ func (c *Characteristic) getValue(conn) (v)
 //@   requires wellTyped(c) && finiteBounds(c)
 //@   modifies heap, callcount
-//@   ensures wellTyped(c) && v == c.Value
+//@   ensures wellTyped(c) && finiteBounds(c) && v == c.Value && sametype(c) && sameheap("func") && c.ID == old(c.ID)
 
 //@ func (c *Characteristic) UpdateValue(value)
 //@   requires wellTyped(c) && finiteBounds(c)
 //@   modifies heap, callcount
-//@   ensures wellTyped(c)
+//@   ensures wellTyped(c) && finiteBounds(c) && sametype(c) && sameheap("func")
 //@ func (c *Characteristic) UpdateValueFromConnection(value, conn)
 //@   requires wellTyped(c) && finiteBounds(c)
 //@   modifies heap, callcount
-//@   ensures wellTyped(c)
+//@   ensures wellTyped(c) && finiteBounds(c) && sametype(c) && sameheap("func") && c.ID == old(c.ID)
 //@   ensures noWrite: !old(hasPerm(c.Perms, "pw")) ==> c.Value == old(c.Value) && callcount() == old(callcount())
 //@ func (c *Characteristic) GetValue() (v)
 //@   requires wellTyped(c) && finiteBounds(c)
@@ -127,4 +129,4 @@ package characteristic
 //@ func (c *Characteristic) GetValueFromConnection(conn) (v)
 //@   requires wellTyped(c) && finiteBounds(c)
 //@   modifies heap, callcount
-//@   ensures wellTyped(c) && v == c.Value
+//@   ensures wellTyped(c) && finiteBounds(c) && v == c.Value && sametype(c) && sameheap("func") && c.ID == old(c.ID)
